@@ -259,8 +259,8 @@ impl Check for C15 {
     fn budget(&self, tier: Tier) -> Budget {
         let e = enum_cases().len() as u64;
         match tier {
-            Tier::Quick => Budget { wall_secs: 40, max_cases: e + 20_000, checkpoint_every: 256, workers: 16 },
-            Tier::Thorough => Budget { wall_secs: 300, max_cases: e + 3_000_000, checkpoint_every: 256, workers: 16 },
+            Tier::Quick => Budget { wall_secs: 40, max_cases: e + 400_000, checkpoint_every: 256, workers: 16 },
+            Tier::Thorough => Budget { wall_secs: 600, max_cases: e + 30_000_000, checkpoint_every: 256, workers: 16 },
         }
     }
     fn generate(&self, seed: u64, idx: u64, _tier: Tier) -> Value {
